@@ -517,7 +517,7 @@ def extra_c05_crash(prop, tier, seed):
     """Bounded stand-in (labelled, never counted): the public entry points (parse, checked parse, format, JSON
     and CBOR validation) are run on 616 two-rule schemas (aliases, cycles, every control operator, huge
     literals, prelude types) x small documents; a panic or a dead process is a failing instance.  Instances
-    that fail on the unchanged tree are recorded in known_instances_C05.json (known findings F9, F19); any
+    that fail on the unchanged tree are recorded in known_instances_C05.json (known finding F19); any
     other failing instance is a new violation."""
     n, failing = crash_search(tier)
     known = json.load(open(os.path.join(engine.VERIF, 'known_instances_C05.json')))
@@ -529,8 +529,7 @@ def extra_c05_crash(prop, tier, seed):
     def wit(k):
         sc, js, cb = k.split('##')
         return {'schema': sc, 'json': js, 'cbor': cb}
-    for fid, label, pred in (('F9', 'entry-points:return-normally:recorded-cyclic-alias-instances', lambda h: 'died' in h),
-                             ('F19', 'entry-points:return-normally:recorded-uriparse-panic-instances', lambda h: h.startswith('panic'))):
+    for fid, label, pred in (('F19', 'entry-points:return-normally:recorded-uriparse-panic-instances', lambda h: h.startswith('panic')),):
         ks = [k for k in failing if k in known and pred(failing[k])]
         if ks:
             w = wit(sorted(ks)[0])
@@ -991,7 +990,7 @@ PROPS = {
         'extra': [extra_c05_crash, extra_c05_scale],
         'witness': witness_c05,
         'technique': 'Verus: allocation-size obligations injected at every allocation site found by token scan, decreases clauses, overflow / index / unwrap / library-precondition obligations on every function under contract',
-        'level_text': 'Partial: for the functions under contract - the eight CBOR decoder functions, the three parse-error range functions and the greedy occurrence loop of the array matcher in both validators (unit U7: terminates also for zero-width iterations such as [* ()], cursor stays inside the array, no counter overflow - with one iteration abstracted by a stub whose assumed contract is that the cursor never moves backwards or past the end) - Verus proves (a) every allocation whose size is a run-time value requests at most a constant (the "length in a CBOR head is never trusted for allocation" clause; sites re-discovered on every run), (b) termination of every loop and of the mutual recursion, (c) absence of arithmetic overflow, out-of-bounds indexing, failing unwrap and violated library preconditions (e.g. ciborium push() with a header already buffered, read_exact with a buffered header - both panic). Found and fixed: allocation of 2 TiB from 9b 00 00 00 10 00 00 00 00 (F3). NOT decided deductively: polynomial time, stack depth (recursion on nesting), the pest parser, the validators, Display. For the entry points as a whole only a bounded crash search runs (labelled bounded, not counted): 616 two-rule schemas x small documents through parse / checked parse / format / JSON and CBOR validation in subprocesses. It found F12 (.plus overflow, fixed), F13 (tag-1 epoch unwrap, fixed) and two defects recorded as known findings instance by instance: F9 (cyclic alias reached through an unwrap, a generic or a .plus/.cat/.det operand overflows the stack: 432 instances left after the is_ident_* class, 979 instances, was fixed) and F19 (uriparse panics on some strings: 14 instances). A second bounded search (labelled bounded, not counted) runs the same entry points with a 120 s limit per case on every text of <= 3 tokens out of 40 and on inputs at the limits the property names - nesting depth 64 in 19 shapes, sizes up to the 64 KiB class in 23 shapes; it found F25 (formatter exponential in nesting depth, fixed) F37 (sloppy base64 on non-ASCII text, fixed) and F24 (a generic parameter forwarded under its own name overflowed the stack in both validators; first recorded as a known finding, then fixed).',
+        'level_text': 'Partial: for the functions under contract - the eight CBOR decoder functions, the three parse-error range functions and the greedy occurrence loop of the array matcher in both validators (unit U7: terminates also for zero-width iterations such as [* ()], cursor stays inside the array, no counter overflow - with one iteration abstracted by a stub whose assumed contract is that the cursor never moves backwards or past the end) - Verus proves (a) every allocation whose size is a run-time value requests at most a constant (the "length in a CBOR head is never trusted for allocation" clause; sites re-discovered on every run), (b) termination of every loop and of the mutual recursion, (c) absence of arithmetic overflow, out-of-bounds indexing, failing unwrap and violated library preconditions (e.g. ciborium push() with a header already buffered, read_exact with a buffered header - both panic). Found and fixed: allocation of 2 TiB from 9b 00 00 00 10 00 00 00 00 (F3). NOT decided deductively: polynomial time, stack depth (recursion on nesting), the pest parser, the validators, Display. For the entry points as a whole only a bounded crash search runs (labelled bounded, not counted): 616 two-rule schemas x small documents through parse / checked parse / format / JSON and CBOR validation in subprocesses. It found F12 (.plus overflow, fixed), F13 (tag-1 epoch unwrap, fixed) F9 (a cyclic alias reached through a control operator, an unwrap, a .cat/.plus operand or a generic overflowed the stack: 1425 instances, fixed in three steps F38-F40) and one defect recorded as a known finding instance by instance: F19 (uriparse panics on some strings: 14 instances). A second bounded search (labelled bounded, not counted) runs the same entry points with a 120 s limit per case on every text of <= 3 tokens out of 40 and on inputs at the limits the property names - nesting depth 64 in 19 shapes, sizes up to the 64 KiB class in 23 shapes; it found F25 (formatter exponential in nesting depth, fixed) F37 (sloppy base64 on non-ASCII text, fixed) and F24 (a generic parameter forwarded under its own name overflowed the stack in both validators; first recorded as a known finding, then fixed).',
         'level_note': 'Trusted: as for C11 and C15. Only functions under contract are covered; C05 as stated quantifies over every entry point, most of which are outside the verifiers reach (see DESIGN.md 5).',
         'design_ref': 'DESIGN.md 4 U1/U3',
         'scope': 'panic/abort/termination obligations of the functions under contract in U1 and U3',
